@@ -2,7 +2,7 @@
 import ast
 
 from ..heap import Analysis
-from ..model import FuncInfo, norm, walk_own, walk_with_nested_exprs
+from ..model import FuncInfo, norm, parent, walk_own, walk_with_nested_exprs
 from ..rules_own import own_rules, storage_analysis
 from ..rules_store import IFACE, STORAGE_CLASSES
 from ..sqlmodel import peewee_chains, single_def, sql_sites
@@ -249,7 +249,31 @@ def check(prog, rep):
     # a read remembered by the wrapper hands the same Event objects to the next query, which sees the previous one's annotations
     from ..rules_wrap import wrapper_rules
 
-    wrapper_rules(prog, rep, parts=("state", "reads"))
+    wrapper_rules(prog, rep, parts=("state", "reads", "arguments"))
+    from ..rules_store import forward_bucket
+
+    forward_bucket(prog, rep)
+    # the existence check in front of query_bucket fails for buckets that do not exist, and for nothing else (a direct read
+    # does not look at the bucket's metadata)
+    vf = prog.func("_verify_bucket_exists", "aw_query.functions")
+    for r_ in [x for x in walk_own(vf.node) if isinstance(x, ast.Raise)]:
+        p_, child_ = parent(r_), r_
+        guard_ok = False
+        while p_ is not None and p_ is not vf.node:
+            if isinstance(p_, ast.If):
+                t_ = norm(p_.test)
+                in_body = any(child_ is b_ or any(child_ is y for y in ast.walk(b_)) for b_ in p_.body)
+                if ("not in" in t_ and "buckets" in t_ and in_body) or (" in " in t_ and "not in" not in t_ and "buckets" in t_ and not in_body):
+                    guard_ok = True
+            if isinstance(p_, (ast.Try, ast.ExceptHandler)):
+                guard_ok = False
+                break
+            child_, p_ = p_, parent(p_)
+        rep.check(guard_ok, "WINDOW", vf.short, f"raise at line {r_.lineno}", "only for a bucket that is not listed", f"`{norm(r_)[:70]}` makes query_bucket / query_bucket_eventcount fail for a bucket that exists (the raise is not the `not in buckets()` branch): a direct read of the same bucket succeeds, so the query no longer yields what the direct read yields", vf.loc(r_))
+    # the bucket name a query denotes is the text of its string literal
+    from .c11 import text_level_rules
+
+    text_level_rules(prog, rep)
     from ..rules_commit import check_no_rollback
     from ..rules_own import copy_protocol
 
